@@ -23,7 +23,7 @@ import os
 import sys
 import types
 
-from ..core import Sub, fail, enc, jkey, scale
+from ..core import Sub, fail, enc, jkey, lit, scale
 from .. import heapfp
 
 BOUNDS = {
@@ -32,7 +32,7 @@ BOUNDS = {
              'history in a pristine process (fork server) against solo outcomes from pristine processes; closure '
              'search over heap fingerprints to a fixpoint (cap depth 5); repetition ladder 1,2,4,...,64 per formula for live '
              'traceback/frame counts; host-list immutability for every documented function x arity <= 2 x list-valued '
-             'argument positions + operator paths',
+             'argument positions + operator paths; clock: 22 date texts x 14 formulas x 2 deliveries under 4 clocks',
     'thorough': 'histories of length <= 3 (19 683 x 18 probes x 2 debug settings); closure cap depth 8; immutability at arity 3',
 }
 ASSUMPTIONS = ['NOW/TODAY/RAND/RANDBETWEEN are evaluated under a seam that fixes clock and random source (attributes '
@@ -889,4 +889,65 @@ class EvaluationScale(Sub):
         return None
 
 
-SUBS = [Histories(), Closure(), Retention(), Immutable(), ModuleState(), ProcessState(), ResultAliasing(), EvaluationScale()]
+CLOCKS = [(2021, 6, 15, 13, 0, 0), (2024, 2, 29, 23, 59, 58), (2025, 12, 31, 0, 0, 1), (2024, 7, 31, 12, 0, 0)]
+CLOCK_TEXTS = {
+    'full': ['2020-03-05', '5 March 2020', '3/5/2020 10:00', '2020-03-05T10:04:11', '29 Feb 2024', '1999-12-31 23:59:59'],
+    'no-day': ['March 2020', '2020-03', 'Feb 2023', 'April 2021', '2019-11', 'Sep 1999 10:30'],
+    'time-only': ['10:04:11', '10:04', '12:00 PM', '00:00', '23:59:59', '1:30 am'],
+    'no-year': ['Jan 5', '5 March', '31 Dec 10:00', 'March'],
+}
+CLOCK_FORMS = ['DATEVALUE(xt)', 'xt+0', 'DAY(xt)&"/"&MONTH(xt)&"/"&YEAR(xt)&" "&HOUR(xt)&":"&MINUTE(xt)&":"&SECOND(xt)', 'WEEKDAY(xt)', 'xt-1',
+               'DAYS(xt,"1990-01-01")', 'EDATE(xt,1)', 'IF(xt>DATE(2020,1,1),"after","before")', 'DATEDIF("1950-01-01",xt,"d")', 'N(xt+1)',
+               'TIMEVALUE(xt)', 'xt=xt', 'SUM(xt)', 'xt&""']
+
+
+class Clock(Sub):
+    name = 'c02.clock'
+    rule = ('the clock of the host is an environment answer owned by the harness (the `datetime` module as hotxlfp\'s modules and the '
+            'date parser see it): 22 texts that spell a date-time completely, without a day, or as a time of day only x 14 formulas '
+            'without NOW / TODAY (text as variable and as literal) give the same outcome under 4 clocks (mid-month, 29 February '
+            '23:59:58, 31 December, 31 July); text without a year may be read in the current year (as a sheet does) and must agree '
+            'under the two clocks of one year; NOW() itself must follow the clock, else the seam is void; non-trivial = all')
+    min_cases = 20
+    min_nontrivial = 20
+    min_classes = 3
+
+    def cases(self, tier, unit):
+        for kind in sorted(CLOCK_TEXTS):
+            for text in CLOCK_TEXTS[kind]:
+                for how in ('var', 'lit'):
+                    yield [kind, text, how]
+
+    def check(self, env, case):
+        from ..core import wall_clock
+        kind, text, how = case
+        env.nt()
+        env.note(kind)
+        seen = {}
+        for ci, now in enumerate(CLOCKS):
+            with wall_clock(now) as c:
+                if ci == 0:
+                    probe = env.evo('YEAR(NOW())&"-"&MONTH(NOW())&"-"&DAY(TODAY())')
+                    if probe != ['v', '2021-6-15']:
+                        env.note('clock seam not taken (%r, %r)' % (c.patched, probe))
+                        env.cov['clock_seam_void'] = env.cov.get('clock_seam_void', 0) + 1
+                        return None
+                for f in CLOCK_FORMS:
+                    if how == 'var':
+                        o = env.evo(f, {'xt': text})
+                    else:
+                        o = env.evo(f.replace('xt', lit(text)))
+                    seen.setdefault(f, []).append(o)
+        for f in CLOCK_FORMS:
+            outs = seen[f]
+            pairs = [(1, 3)] if kind == 'no-year' else [(0, 1), (0, 2), (0, 3)]
+            for a, b in pairs:
+                if outs[a] != outs[b]:
+                    return fail('%s with xt = %r (%s) gives %r when the clock of the host says %s and %r when it says %s: the outcome of a '
+                                'formula without NOW / TODAY depends on the clock' % (
+                                    f, text, 'variable' if how == 'var' else 'literal', outs[a], '%04d-%02d-%02d %02d:%02d:%02d' % CLOCKS[a],
+                                    outs[b], '%04d-%02d-%02d %02d:%02d:%02d' % CLOCKS[b]), outs[a], outs[b])
+        return None
+
+
+SUBS = [Histories(), Closure(), Retention(), Immutable(), ModuleState(), ProcessState(), ResultAliasing(), EvaluationScale(), Clock()]
